@@ -216,9 +216,9 @@ func init() {
 		Assume: []string{"model.Decode implements the merge rules of the statement (validated against the real decoder by C10)"},
 		Plan: func(tier string) []core.Lane {
 			if tier == "thorough" {
-				return []core.Lane{{Lane: "plain", Cases: 60000, Shards: 16, TimeoutS: 3600}, {Lane: "race", Cases: 4000, Shards: 16, TimeoutS: 3600}}
+				return []core.Lane{{Lane: "plain", Cases: 500000, Shards: 16, TimeoutS: 7200}, {Lane: "race", Cases: 30000, Shards: 16, TimeoutS: 3600}}
 			}
-			return []core.Lane{{Lane: "plain", Cases: 2400, Shards: 16, TimeoutS: 1200}}
+			return []core.Lane{{Lane: "plain", Cases: 12000, Shards: 16, TimeoutS: 1200}}
 		},
 		Case: c03Case,
 	})
